@@ -2146,6 +2146,11 @@ func (c *DefaultCtx) End() error {
 	ctx := c.RequestCtx()
 	conn := ctx.Conn()
 
+	// The response to a HEAD request has no body (the server sets this itself only after the handler returned).
+	if ctx.IsHead() {
+		ctx.Response.SkipBody = true
+	}
+
 	bw := bufio.NewWriter(conn)
 	if err := ctx.Response.Write(bw); err != nil {
 		return err
